@@ -37,6 +37,9 @@ use std::cmp::Ord;
 #[cfg(feature = "std")]
 use std::collections::hash_map::RandomState;
 use std::iter::*;
+use std::marker::PhantomData;
+
+use indexmap::map::{IterMut2, MutableKeys};
 
 use crate::PriorityQueue;
 
@@ -56,8 +59,12 @@ pub struct IterMut<'a, I: 'a, P: 'a, H: 'a = RandomState>
 where
     P: Ord,
 {
-    pq: &'a mut PriorityQueue<I, P, H>,
-    pos: usize,
+    // The queue is only touched through this pointer before `iter` is created
+    // and after it has been dropped, so the map is mutably borrowed just once
+    // for the whole iteration.
+    pq: *mut PriorityQueue<I, P, H>,
+    iter: Option<IterMut2<'a, I, P>>,
+    marker: PhantomData<&'a mut PriorityQueue<I, P, H>>,
 }
 
 #[cfg(not(feature = "std"))]
@@ -65,16 +72,28 @@ pub struct IterMut<'a, I: 'a, P: 'a, H: 'a>
 where
     P: Ord,
 {
-    pq: &'a mut PriorityQueue<I, P, H>,
-    pos: usize,
+    // The queue is only touched through this pointer before `iter` is created
+    // and after it has been dropped, so the map is mutably borrowed just once
+    // for the whole iteration.
+    pq: *mut PriorityQueue<I, P, H>,
+    iter: Option<IterMut2<'a, I, P>>,
+    marker: PhantomData<&'a mut PriorityQueue<I, P, H>>,
 }
+
+// SAFETY: `IterMut` stands for the `&'a mut PriorityQueue<I, P, H>` it was created from
+unsafe impl<I: Send, P: Send + Ord, H: Send> Send for IterMut<'_, I, P, H> {}
+unsafe impl<I: Sync, P: Sync + Ord, H: Sync> Sync for IterMut<'_, I, P, H> {}
 
 impl<'a, I: 'a, P: 'a, H: 'a> IterMut<'a, I, P, H>
 where
     P: Ord,
 {
     pub(crate) fn new(pq: &'a mut PriorityQueue<I, P, H>) -> Self {
-        IterMut { pq, pos: 0 }
+        IterMut {
+            pq,
+            iter: None,
+            marker: PhantomData,
+        }
     }
 }
 
@@ -85,17 +104,12 @@ where
 {
     type Item = (&'a mut I, &'a mut P);
     fn next(&mut self) -> Option<Self::Item> {
-        use indexmap::map::MutableKeys;
-
-        let r: Option<(&'a mut I, &'a mut P)> = self
-            .pq
-            .store
-            .map
-            .get_index_mut2(self.pos)
-            .map(|(i, p)| (i as *mut I, p as *mut P))
-            .map(|(i, p)| unsafe { (i.as_mut().unwrap(), p.as_mut().unwrap()) });
-        self.pos += 1;
-        r
+        let pq = self.pq;
+        // SAFETY: `pq` comes from the `&'a mut` passed to `new` and is not
+        // used again until `iter` has been dropped (see `Drop`)
+        self.iter
+            .get_or_insert_with(|| unsafe { (*pq).store.map.iter_mut2() })
+            .next()
     }
 }
 
@@ -104,7 +118,9 @@ where
     P: Ord,
 {
     fn drop(&mut self) {
-        self.pq.heap_build();
+        self.iter = None;
+        // SAFETY: see `next`
+        unsafe { (*self.pq).heap_build() };
     }
 }
 
